@@ -390,6 +390,15 @@ pub fn check_outcome(o: &Outcome, ovh: usize, vsz: usize) -> Vec<Fail> {
         }
         _ => return v,
     };
+    if o.panicked && o.injected.is_none() && o.line.panic_at.is_none() && !o.line.fail_alloc
+        && !matches!(op, OpKind::Reserve(_) | OpKind::Shrink(_) | OpKind::ShrinkFit) {
+        // no user callback panicked and the allocator did not refuse: the crate's own code panicked
+        // (an arithmetic overflow, an unwrap, an assertion) where the operation has a defined result
+        let ex = expect(pre, op, ovh, vsz);
+        let due = ex.ret.as_ref().map(|r| r.text()).unwrap_or_else(|| "a normal return".to_owned());
+        fail(&mut v, ex.ret_prop, format!("{} panicked inside the crate (no user code panicked) where {} is due", op.text(), due));
+        return v;
+    }
     if o.line.panic_at.is_some() || o.panicked {
         return v;
     }
@@ -620,6 +629,13 @@ pub fn fresh_cap(n: usize) -> usize {
 }
 
 fn check_clone(o: &Outcome, src: &Snap, v: &mut Vec<Fail>) {
+    if let Some(p) = &o.post {
+        if let Some(e) = &p.walk_err {
+            // a freshly made clone whose list is not a closed structure over its own table and seal
+            // (e.g. a link still pointing into the source) is not an independent cache
+            fail(v, "C14", format!("the clone's own link structure is incoherent right after clone(): {}", e));
+        }
+    }
     let post = match &o.post {
         Some(p) if p.full && p.walk_err.is_none() => p,
         _ => return,
